@@ -5,9 +5,15 @@ From MrVerif Require Import Base.Prelude Base.StarRing Model.Rotation.
 Ltac pair_split := repeat match goal with |- (_, _) = (_, _) => apply f_equal2 end.
 Ltac dquat q := destruct q as [[[? ?] ?] ?].
 Ltac dvec v := destruct v as [[? ?] ?].
-Ltac unf := unfold rapply, rapply_sd, sd_to_vec, rcompose, rinv, rid, rmat, rinvert_axes, sgn, qrot, qmat, qmul, qconj, qopp, qscal, qnorm2, qone, qpure, qvec,
-  mmul, mtrans, mapply, mscal, mopp, mid, mdet, madd, outer, col, row0, row1, row2, cross3, dot3, vscal, vadd, vopp, k2,
-  q0, q1, q2, q3, v0, v1, v2 in *; cbn [fst snd] in *.
+Ltac unf := cbv [rapply rapply_sd sd_to_vec rcompose rinv rid rmat rinvert_axes sgn qrot qmat qmul qconj qopp qscal qnorm2 qone qpure qvec
+  mmul mtrans mapply mscal mopp mid mdet madd outer col row0 row1 row2 cross3 dot3 vscal vadd vopp k2
+  q0 q1 q2 q3 v0 v1 v2 fst snd xorb negb] in *.
+
+Lemma odd_to_nat (m : Z) : 0 <= m -> Nat.odd (Z.to_nat m) = Z.odd m.
+Proof.
+  intros H. rewrite <- (Z2Nat.id m) at 2 by lia. generalize (Z.to_nat m). intro k.
+  induction k; [reflexivity|]. rewrite Nat.odd_succ, Nat2Z.inj_succ, Z.odd_succ, <- Nat.negb_odd, <- Z.negb_odd. now rewrite IHk.
+Qed.
 
 Section QuatProofs.
   Variable R : StarRing.
@@ -94,11 +100,11 @@ Section QuatProofs.
     destruct fp, fq; cbn [xorb]; now rewrite ?mmul_opp_opp, ?mmul_opp_l, ?mmul_opp_r.
   Qed.
   Lemma rcompose_assoc (p q r : rot) : rcompose R (rcompose R p q) r = rcompose R p (rcompose R q r).
-  Proof. unfold rcompose. cbn [fst snd]. now rewrite qmul_assoc, xorb_assoc. Qed.
+  Proof. unfold rcompose. cbn [fst snd]. rewrite qmul_assoc. f_equal. destruct (snd p), (snd q), (snd r); reflexivity. Qed.
   Lemma rcompose_id_r (p : rot) : rcompose R p (rid R) = p.
   Proof. destruct p as [p f]. unfold rcompose, rid. cbn [fst snd]. now rewrite qmul_one_r, xorb_false_r. Qed.
   Lemma rcompose_id_l (p : rot) : rcompose R (rid R) p = p.
-  Proof. destruct p as [p f]. unfold rcompose, rid. cbn [fst snd]. now rewrite qmul_one_l. Qed.
+  Proof. destruct p as [p f]. unfold rcompose, rid. cbn [fst snd]. now rewrite qmul_one_l, xorb_false_l. Qed.
   Lemma rapply_compose (p q : rot) (v : vec3) :
     rapply R (rcompose R p q) false v = rapply R p false (rapply R q false v).
   Proof. unfold rapply. now rewrite rmat_compose, mapply_mmul. Qed.
@@ -148,12 +154,9 @@ Section QuatProofs.
   Qed.
   Lemma rpow_flag (n : Z) (p : rot) : snd (rpow R n p) = pow_flag n (snd p).
   Proof.
-    unfold rpow, pow_flag. destruct (n <? 0) eqn:E; rewrite rpow_nat_flag; cbn [rinv snd]; f_equal.
-    - rewrite <- (Z.odd_opp n). generalize (- n) (proj1 (Z.ltb_lt _ _) E). intros m Hm.
-      rewrite <- (Z2Nat.id m) at 2 by lia. generalize (Z.to_nat m). intro k.
-      induction k; [reflexivity|]. rewrite Nat.odd_succ, Nat2Z.inj_succ, Z.odd_succ, <- Nat.negb_odd, <- Z.negb_odd. now rewrite IHk.
-    - assert (Hm : 0 <= n) by lia. rewrite <- (Z2Nat.id n) at 2 by lia. generalize (Z.to_nat n). intro k.
-      induction k; [reflexivity|]. rewrite Nat.odd_succ, Nat2Z.inj_succ, Z.odd_succ, <- Nat.negb_odd, <- Z.negb_odd. now rewrite IHk.
+    unfold rpow, pow_flag. destruct (n <? 0)%Z eqn:E; rewrite rpow_nat_flag; cbn [rinv snd]; f_equal.
+    - rewrite odd_to_nat by lia. apply Z.odd_opp.
+    - apply odd_to_nat. lia.
   Qed.
   Lemma rpow_nat_quat (n : nat) (p : rot) : fst (rpow_nat R n p) = qpow_nat R n (fst p).
   Proof. induction n; [reflexivity|]. cbn [rpow_nat qpow_nat rcompose fst]. now rewrite IHn. Qed.
